@@ -232,6 +232,10 @@ fn handle(job: &Value, scratch: &PathBuf) -> Value {
         let ed = job["opts"]["edition"].as_str().unwrap_or("2015").to_owned();
         res["ledger"] = ledger(&src, &out_text, &ed);
     }
+    if wants(job, "slots") {
+        let ed = job["opts"]["edition"].as_str().unwrap_or("2015").to_owned();
+        res["slots"] = slots(&src, &ed);
+    }
     if wants(job, "lex") {
         res["lex_in"] = lex_summary(&src);
         res["lex_out"] = lex_summary(&out_text);
@@ -1051,4 +1055,273 @@ fn mutate(text: &str, seed: u64) -> String {
         }
     }
     toks.concat()
+}
+
+// ---------------------------------------------------------------------------------------
+// C03 / C04: comment slots.  For a parsable text, the token boundaries at which a comment
+// stands in one of the positions property C03 names, computed from rustc's own AST.
+
+struct SlotVisitor {
+    /// (offset of the first byte of element k >= 1 of a list, class)
+    before: Vec<(u32, &'static str)>,
+    /// (offset of the last byte + 1 of an element of a list, class)
+    ends: Vec<(u32, &'static str)>,
+    /// byte ranges of the statements of function bodies
+    stmts: Vec<(u32, u32)>,
+    fn_depth: usize,
+}
+
+fn lo_with_attrs(attrs: &[rustc_ast::ast::Attribute], span: rustc_span::Span) -> u32 {
+    let mut lo = span.lo().0;
+    for a in attrs {
+        lo = lo.min(a.span.lo().0);
+    }
+    lo
+}
+
+impl SlotVisitor {
+    fn list(&mut self, cls: &'static str, elems: impl Iterator<Item = (u32, u32)>) {
+        for (k, (lo, hi)) in elems.enumerate() {
+            if k > 0 {
+                self.before.push((lo, cls));
+            }
+            self.ends.push((hi, cls));
+        }
+    }
+    fn items(&mut self, items: &[rustc_ast::ptr::P<rustc_ast::ast::Item>]) {
+        let v: Vec<(u32, u32)> = items
+            .iter()
+            .map(|i| (lo_with_attrs(&i.attrs, i.span), i.span.hi().0))
+            .collect();
+        self.list("items", v.into_iter());
+    }
+    fn fields(&mut self, vd: &rustc_ast::ast::VariantData) {
+        let v: Vec<(u32, u32)> = vd
+            .fields()
+            .iter()
+            .map(|f| (lo_with_attrs(&f.attrs, f.span), f.span.hi().0))
+            .collect();
+        self.list("fields", v.into_iter());
+    }
+}
+
+impl<'ast> rustc_ast::visit::Visitor<'ast> for SlotVisitor {
+    fn visit_item(&mut self, item: &'ast rustc_ast::ast::Item) {
+        use rustc_ast::ast::{ItemKind, ModKind};
+        match &item.kind {
+            ItemKind::Mod(_, _, ModKind::Loaded(inner, ..)) => self.items(inner),
+            ItemKind::Struct(_, vd, _) | ItemKind::Union(_, vd, _) => self.fields(vd),
+            ItemKind::Enum(_, def, _) => {
+                let v: Vec<(u32, u32)> = def
+                    .variants
+                    .iter()
+                    .map(|f| (lo_with_attrs(&f.attrs, f.span), f.span.hi().0))
+                    .collect();
+                self.list("variants", v.into_iter());
+                for var in &def.variants {
+                    self.fields(&var.data);
+                }
+            }
+            ItemKind::Impl(imp) => {
+                let v: Vec<(u32, u32)> = imp
+                    .items
+                    .iter()
+                    .map(|i| (lo_with_attrs(&i.attrs, i.span), i.span.hi().0))
+                    .collect();
+                self.list("items", v.into_iter());
+            }
+            ItemKind::Trait(tr) => {
+                let v: Vec<(u32, u32)> = tr
+                    .items
+                    .iter()
+                    .map(|i| (lo_with_attrs(&i.attrs, i.span), i.span.hi().0))
+                    .collect();
+                self.list("items", v.into_iter());
+            }
+            _ => {}
+        }
+        rustc_ast::visit::walk_item(self, item);
+    }
+
+    fn visit_fn(
+        &mut self,
+        fk: rustc_ast::visit::FnKind<'ast>,
+        _: rustc_span::Span,
+        _: rustc_ast::node_id::NodeId,
+    ) {
+        if let rustc_ast::visit::FnKind::Fn(_, _, f) = &fk {
+            let v: Vec<(u32, u32)> = f
+                .sig
+                .decl
+                .inputs
+                .iter()
+                .map(|p| {
+                    // the span of a `self` parameter does not always cover its type
+                    let hi = p.span.hi().0.max(p.ty.span.hi().0).max(p.pat.span.hi().0);
+                    (lo_with_attrs(&p.attrs, p.span).min(p.pat.span.lo().0), hi)
+                })
+                .collect();
+            self.list("params", v.into_iter());
+            if let Some(body) = &f.body {
+                for s in &body.stmts {
+                    self.stmts.push((s.span.lo().0, s.span.hi().0));
+                }
+            }
+            self.fn_depth += 1;
+            rustc_ast::visit::walk_fn(self, fk);
+            self.fn_depth -= 1;
+            return;
+        }
+        rustc_ast::visit::walk_fn(self, fk);
+    }
+
+    fn visit_block(&mut self, b: &'ast rustc_ast::ast::Block) {
+        if self.fn_depth > 0 {
+            let v: Vec<(u32, u32)> = b.stmts.iter().map(|s| (s.span.lo().0, s.span.hi().0)).collect();
+            self.list("stmts", v.into_iter());
+        }
+        rustc_ast::visit::walk_block(self, b);
+    }
+
+    fn visit_expr(&mut self, e: &'ast rustc_ast::ast::Expr) {
+        use rustc_ast::ast::ExprKind;
+        match &e.kind {
+            ExprKind::Call(_, args) => {
+                let v: Vec<(u32, u32)> = args
+                    .iter()
+                    .map(|a| (lo_with_attrs(&a.attrs, a.span), a.span.hi().0))
+                    .collect();
+                self.list("args", v.into_iter());
+            }
+            ExprKind::MethodCall(mc) => {
+                let v: Vec<(u32, u32)> = mc
+                    .args
+                    .iter()
+                    .map(|a| (lo_with_attrs(&a.attrs, a.span), a.span.hi().0))
+                    .collect();
+                self.list("args", v.into_iter());
+            }
+            ExprKind::Match(_, arms, _) => {
+                let v: Vec<(u32, u32)> = arms
+                    .iter()
+                    .map(|a| (lo_with_attrs(&a.attrs, a.span), a.span.hi().0))
+                    .collect();
+                self.list("arms", v.into_iter());
+            }
+            _ => {}
+        }
+        rustc_ast::visit::walk_expr(self, e);
+    }
+}
+
+/// Slots of `text`: every token boundary (offset of the first byte of a token, with the
+/// preceding token not gluing to it) that lies in one of the named positions:
+///   {"off", "cls", "how": "before" | "eol" | "in"}
+/// plus, for every non-doc comment already in the text, the class of the position it stands at.
+fn slots(text: &str, edition: &str) -> Value {
+    use rustc_lexer::TokenKind as T;
+    let vis = with_parsed(text, edition, |k| {
+        let mut v = SlotVisitor { before: vec![], ends: vec![], stmts: vec![], fn_depth: 0 };
+        v.items(&k.items);
+        rustc_ast::visit::walk_crate(&mut v, k);
+        v
+    });
+    let Some(vis) = vis else { return Value::Null };
+    // tokens: (start, end, kind tag, text)
+    let mut toks: Vec<(usize, usize, u8)> = vec![]; // 0 = ws, 1 = comment (non-doc), 2 = other
+    let mut pos = 0usize;
+    for tok in rustc_lexer::tokenize(text) {
+        let end = pos + tok.len as usize;
+        let tag = match tok.kind {
+            T::Whitespace => 0,
+            T::LineComment { doc_style: None } | T::BlockComment { doc_style: None, .. } => 1,
+            _ => 2,
+        };
+        toks.push((pos, end, tag));
+        pos = end;
+    }
+    let glue = |c: char| "-=><&|+*/%^!.:~@#$?".contains(c);
+    let before: std::collections::HashMap<u32, &'static str> = vis.before.iter().cloned().collect();
+    let in_stmt = |o: u32| vis.stmts.iter().any(|(lo, hi)| *lo < o && o < *hi);
+    let class_of_boundary = |o: usize| -> Option<(&'static str, &'static str)> {
+        if let Some(c) = before.get(&(o as u32)) {
+            return Some((c, "before"));
+        }
+        if in_stmt(o as u32) {
+            return Some(("instmt", "in"));
+        }
+        None
+    };
+    let mut out = vec![];
+    let mut comments = vec![];
+    // "before" and "in" slots
+    for (i, (s, _e, tag)) in toks.iter().enumerate() {
+        if *tag != 2 || *s == 0 {
+            continue;
+        }
+        let prev = text[..*s].chars().last().unwrap();
+        let next = text[*s..].chars().next().unwrap();
+        if glue(prev) && glue(next) {
+            continue;
+        }
+        let _ = i;
+        if let Some((cls, how)) = class_of_boundary(*s) {
+            out.push(json!({"off": s, "cls": cls, "how": how}));
+        }
+    }
+    // "eol" slots: after the end of an element (and the `,` / `;` that follows it)
+    let mut ends: Vec<(u32, &'static str)> = vis.ends.clone();
+    ends.sort();
+    ends.dedup_by_key(|e| e.0);
+    let mut eol_at: std::collections::HashMap<usize, &'static str> = Default::default();
+    for (hi, cls) in &ends {
+        let mut o = *hi as usize;
+        if o > text.len() {
+            continue;
+        }
+        // skip blanks (not newlines) and one separator
+        let rest = &text[o..];
+        let t = rest.trim_start_matches([' ', '\t']);
+        if t.starts_with(',') || t.starts_with(';') {
+            o += rest.len() - t.len() + 1;
+        }
+        eol_at.insert(o, cls);
+        out.push(json!({"off": o, "cls": cls, "how": "eol"}));
+    }
+    // the comments already present
+    for (i, (s, e, tag)) in toks.iter().enumerate() {
+        if *tag != 1 {
+            continue;
+        }
+        // eol: only blanks / comments between an element end and this comment on the same line
+        let mut cls: Option<(&'static str, &'static str)> = None;
+        let mut j = i;
+        loop {
+            let start = toks[j].0;
+            if let Some(c) = eol_at.get(&start) {
+                cls = Some((c, "eol"));
+                break;
+            }
+            if j == 0 {
+                break;
+            }
+            let (ps, pe, ptag) = toks[j - 1];
+            if ptag == 2 || text[ps..pe].contains('\n') {
+                break;
+            }
+            j -= 1;
+        }
+        if cls.is_none() {
+            // the next token that is neither blank nor comment
+            if let Some((ns, _, _)) = toks[i..].iter().find(|t| t.2 == 2) {
+                cls = class_of_boundary(*ns);
+            }
+            if cls.is_none() && in_stmt(*s as u32) {
+                cls = Some(("instmt", "in"));
+            }
+        }
+        comments.push(json!({"off": s, "text": &text[*s..*e],
+                             "cls": cls.map(|c| c.0), "how": cls.map(|c| c.1)}));
+    }
+    json!({"slots": out, "comments": comments})
 }
